@@ -18,6 +18,8 @@ type GenConfig struct {
 	V6         bool
 	LateMarker bool // place some markers only in late messages
 	LongLived  bool // some conversations span the whole capture
+	LongGaps   bool // idle gaps of 1-3.5 minutes (below the 5 minute inactivity rule)
+	CoarseTick bool // coarse capture clock
 }
 
 func DefaultGen() GenConfig {
@@ -94,6 +96,10 @@ func Gen(r *rand.Rand, cfg GenConfig) *Spec {
 				m.GapUS = int64(40_000 + r.IntN(400_000)) // crosses the 50 ms chunk rule
 			default:
 				m.GapUS = int64(1_000_000 + r.IntN(30_000_000))
+				if cfg.LongGaps && r.IntN(2) == 0 {
+					// a flow that lives longer than the inactivity timeout without ever being idle that long
+					m.GapUS = int64(60_000_000 + r.IntN(150_000_000))
+				}
 			}
 			if long {
 				m.GapUS += horizon / int64(nm)
@@ -130,6 +136,14 @@ func Gen(r *rand.Rand, cfg GenConfig) *Spec {
 		}
 		spec.Convs = append(spec.Convs, c)
 	}
+	// unique start times: searches sorted by first packet time stay total orders
+	used := map[int64]bool{}
+	for i := range spec.Convs {
+		for used[spec.Convs[i].StartUS] {
+			spec.Convs[i].StartUS += 1_000_003
+		}
+		used[spec.Convs[i].StartUS] = true
+	}
 	// capture rotation points
 	total := Build(&Spec{BaseUnix: spec.BaseUnix, Convs: spec.Convs}).Packets
 	nf := 1 + r.IntN(cfg.MaxFiles)
@@ -148,5 +162,8 @@ func Gen(r *rand.Rand, cfg GenConfig) *Spec {
 		spec.Cuts = append(spec.Cuts, cut)
 	}
 	spec.NG = r.IntN(6) == 0
+	if cfg.CoarseTick && r.IntN(4) == 0 {
+		spec.TickUS = []int64{1000, 100_000, 1_000_000}[r.IntN(3)]
+	}
 	return spec
 }
